@@ -684,8 +684,5 @@ def run(tier, seed, replay=None):
     obs["environment() (undocumented constructor, outside the model)"] = repr(o)[:200]
     chk.coverage["observations_outside_scope"] = obs
     if tier == "thorough":
-        import common
-
-        with common._Lock():  # pylint: disable=protected-access
-            chk.run_coqchk()
+        chk.run_coqchk()
     return chk.finish()
